@@ -42,7 +42,12 @@ def impl_traverse(cfg, o, rng, res=None, oracle=None):
         else:
             out.append(())
         if oracle is not None and f[0] == 0:
-            oracle(res, cfg, o, tree, ls, sp, kw)
+            try:
+                oracle(res, cfg, o, tree, ls, sp, kw)
+            except AssertionError:
+                raise
+            except Exception as e:  # noqa: BLE001  (a raise here is the implementation failing on this input)
+                res.fail('an operation on a tree that flattens raised', (1, cfg, o), f'{type(e).__name__}: {e}'[:400])
         return tuple(out)
 
 
